@@ -16,6 +16,8 @@ def run(run):
             L = pc.ctx.lattice
             cs = list(L)
         reqs, cases = [], []
+        mlat = lat.parse_lattice(d.ask('lattice'))
+        mpos = {c['extent']: k for k, c in enumerate(mlat)}
         for k, c in enumerate(cs):
             with guard(run, 'concept[%d].attributes() / minimal()' % k, [pc.line]):
                 e, i = pc.omask(c.extent), pc.pmask(c.intent)
@@ -36,6 +38,11 @@ def run(run):
                 run.fail('list(concept[%d].attributes())' % k, got, want, [pc.line, r], extra)
             if not want or mini != want[0]:
                 run.fail('concept[%d].minimal()' % k, mini, want[0] if want else None, [pc.line, r], extra)
+            if e in mpos:
+                rm = 'cminimal %d' % mpos[e]
+                am = d.ask(rm)
+                if str(mini) != am:
+                    run.fail('concept[%d].minimal() (model with the Infimum override)' % k, mini, am, [pc.line, rm], extra)
             if len(want) > 1 and e:
                 run.count('concepts with several generators')
         run.count('contexts')
